@@ -32,6 +32,8 @@ import (
 
 	"github.com/pkg/sftp"
 
+	"verifharness/lib"
+	"verifharness/peers"
 	"verifharness/wire"
 )
 
@@ -377,29 +379,30 @@ func (s *ssSess) effState() string {
 
 // ssEscapes: a mutation can turn a path of the session into a prefix of itself ("/", "/tmp", a sibling of
 // the scratch directory) or into anything else; the os-backed server would act on it for real — as the
-// user running the check.  A stream whose judged requests name a path outside the run's scratch directory
-// (the parent of root) is therefore NOT RUN against the os-backed server.  It returns the offending path.
-func ssEscapes(cfg ssCfg, root, tree string, reqs []ssReq) (string, bool) {
+// user running the check.  A stream in which a request names a path outside the scratch directories is
+// therefore NOT RUN against the os-backed server.  Two independent readings of the stream are judged with the
+// shared helpers (lib/contain.go, peers/guard.go): the frames as the independent wire codec decodes them —
+// field by field as far as a frame decodes, so that a request whose LATER field is short (refused by a correct
+// server, dispatched by one with defect F3) counts with the paths it does carry — and the paths of the
+// session's own judge.  It returns what is wrong.
+func ssEscapes(cfg ssCfg, root, tree string, stream []byte, reqs []ssReq) (string, bool) {
 	if cfg.Kind != "os" {
 		return "", false
 	}
-	base := filepath.Dir(filepath.Clean(root))
+	wd := "" // relative paths: the working directory, else the process directory (<root>/cwd in a child)
+	if cfg.WorkDir {
+		wd = filepath.Join(tree, cfg.Start)
+	}
+	if ok, why := peers.StreamContained(wd, stream); !ok {
+		return why, true
+	}
 	for _, q := range reqs {
+		if q.Kind == "realpath" {
+			continue // answered lexically
+		}
 		for _, p := range q.Paths {
-			if p == "" {
-				continue // refused by every system call
-			}
-			r := p
-			if !filepath.IsAbs(r) {
-				if cfg.WorkDir {
-					r = filepath.Join(tree, cfg.Start, r)
-				} else {
-					r = filepath.Join(root, "cwd", r)
-				}
-			}
-			r = filepath.Clean(r)
-			if r != base && !strings.HasPrefix(r, base+string(filepath.Separator)) {
-				return p, true
+			if ok, why := lib.InScratch(wd, p); !ok {
+				return why, true
 			}
 		}
 	}
